@@ -28,7 +28,7 @@ TOL = Fraction(1, 2 ** 40)
 DTYPES = ["uint8", "int8", "int16", "uint16", "int32", "uint32", "int64", "uint64", "float32", "float64",
           "complex64"]
 NG_TYPES = ("uint8", "uint16", "uint32", "uint64", "float32")
-SHARDINGS = [None, None, None, "1,2,3", "0,0,0", " 1 , 2,3", "1,2", "a,b,c", "1,2,3,4", "-1,2,3", "1_0,2,3",
+SHARDINGS = [None, "2,5,3", "6,0,9", "0,7,1", "1,2,3", "0,0,0", " 1 , 2,3", "1,2", "a,b,c", "1,2,3,4", "-1,2,3", "1_0,2,3",
              "18446744073709551616,0,0", "18446744073709551615,1,1", "", "3,,1", "+1,2,3", "1.0,2,3"]
 
 
@@ -149,7 +149,7 @@ def run(R):
         input_max = rng.random() < 0.1 and layout != "rgb"   # RGB + --input-max is read as one float64 channel
         if input_max:
             opts += ["--input-max", "200"]
-        sh = rng.choice(SHARDINGS)
+        sh = SHARDINGS[(i // 2) % len(SHARDINGS)] if i % 2 == 0 else None   # every string, every run
         if sh is not None:
             opts.append("--sharding=" + sh)
         gz = rng.random() < 0.7
@@ -164,7 +164,10 @@ def run(R):
     for k, (dt_s, n2, scl, ign) in enumerate([("uint32", False, True, True), ("uint32", True, True, True),
                                               ("uint64", True, True, True), ("uint64", False, True, True),
                                               ("uint32", False, False, False), ("uint64", True, False, False),
-                                              ("uint16", False, True, True), ("uint8", True, True, True)]):
+                                              ("uint16", False, True, True), ("uint8", True, True, True),
+                                              ("int32", False, False, False), ("int64", True, False, False),
+                                              ("int32", True, True, True), ("int64", False, True, True),
+                                              ("int16", False, False, False), ("int8", True, False, False)]):
         aff, akind = random_affine(rng, np)
         cases.append(dict(i=n_cases + k, aff=aff, akind=akind, layout="3d", shape=[2, 3, 2], dt=dt_s, scaling=scl,
                           opts=(["--ignore-scaling"] if ign else []), sharding=None, gz=True, nifti2=n2,
@@ -178,10 +181,14 @@ def run(R):
         else:
             data = (np.arange(int(np.prod(c["shape"]))) % 100).reshape(c["shape"]).astype(c["dt"])
             if c.get("big"):
-                top = int(np.iinfo(c["dt"]).max)
+                ii = np.iinfo(c["dt"])
+                top = int(ii.max)
                 data.flat[1] = min(top, 2 ** 24 + 1)
                 data.flat[2] = min(top, 2 ** 31 + 5)
                 data.flat[3] = top
+                if ii.min < 0:               # signed volumes really contain negative values
+                    data.flat[4] = -5
+                    data.flat[5] = int(ii.min)
         c["stored_values"] = None if c["dt"] in ("rgb", "complex64") else [v.item() for v in data.ravel()[:64]]
         cls = nib.Nifti2Image if c["nifti2"] else nib.Nifti1Image
         img = cls(data, c["aff"], dtype=data.dtype)
@@ -319,6 +326,31 @@ def run(R):
                 (impl[1] == 0 and info["data_type"] != in_dt):
             R.violation("data_type cannot hold the values and the run did not flag it", case,
                         {"input": in_dt, "guessed": info["data_type"], "rc": impl[1]})
+        if c["sharding"] and sc.get("sharding") is not None:
+            # the option is "minishard_bits,shard_bits,preshift_bits"
+            try:
+                want_bits = [int(x) for x in c["sharding"].split(",")]
+            except ValueError:
+                want_bits = None
+            got_bits = [sc["sharding"].get("minishard_bits"), sc["sharding"].get("shard_bits"),
+                        sc["sharding"].get("preshift_bits")]
+            enc = "gzip" if c["gz"] else "raw"
+            if want_bits is None or len(want_bits) != 3 or got_bits != want_bits or \
+                    sc["sharding"].get("@type") != "neuroglancer_uint64_sharded_v1" or \
+                    sc["sharding"].get("hash") != "identity" or \
+                    [sc["sharding"].get("data_encoding"), sc["sharding"].get("minishard_index_encoding")] != [enc, enc]:
+                R.violation("sharding specification in the info is not the one requested "
+                            "(minishard_bits, shard_bits, preshift_bits)", case,
+                            {"requested": c["sharding"], "info": sc["sharding"]})
+        if in_dt == c["dt"] and c.get("stored_values") is not None and not c["input_max"] and \
+                info["data_type"] in NG_TYPES and np.issubdtype(np.dtype(info["data_type"]), np.integer):
+            # the values of the volume are the stored numbers (no scaling applies, or it is ignored): an
+            # integer data_type must contain every one of them
+            st_i = np.iinfo(np.dtype(info["data_type"]))
+            outside = [v for v in c["stored_values"] if not int(st_i.min) <= v <= int(st_i.max)]
+            if outside:
+                R.violation("data_type cannot hold the values of the volume", case,
+                            {"values_type": in_dt, "stated": info["data_type"], "not_representable": outside[:3]})
         if in_dt in NG_TYPES and c.get("stored_values") is not None and not c["input_max"]:
             # the values of the volume (stored numbers: no scaling applies, or it is to be ignored) are of a
             # type Neuroglancer has: the stated type must represent every one of them
